@@ -52,7 +52,7 @@ RULE = ('(F) guard: 4 fixed cyclic/self maps are constructed in subprocesses (3 
         'and random trees of 2-5 classes whose maps draw on 5 shared alias names; instances parent-first / '
         'child-first / interleaved, subclasses defined before or after the first instance; then Cls.ALIASES = new '
         'dict, Cls.ALIASES[k] = v, Cls.PREFERRED_NAMES = ..., del Cls.ALIASES followed by new instances and by '
-        'operations on old ones: every instance vs a twin of the mirrored hierarchy through canonical names '
+        'operations on and copies of old ones: every instance vs a twin of the mirrored hierarchy through canonical names '
         '(constructor keywords, every name of the shared pool read right after construction / after later class-level '
         'events / at the end, histories, export), class __dict__ entries untouched by instantiation; self.aliases, '
         'preferred_names, resolutions and export labels of every instance vs the model of the class table. '
@@ -88,6 +88,10 @@ ASSUMPTIONS = ['ALIASES is a dict of str to str; alias names are not names of at
                'declaration; in-place changes reach the dict of the declaring class, hence every class that inherits it); '
                'AliasMixin.ALIASES itself is never written by the harness; multiple inheritance between alias-enabled '
                'classes is not generated',
+               'copy() of an old instance after class-level changes: must behave as the instance it copies (own map kept); '
+               'not claimed where the class\'s current ALIASES / PREFERRED_NAMES are themselves rejected by the constructor '
+               '(copy() re-runs the constructor on them and raises ValueError on the current tree - counted as '
+               '`hier-copy:class-declaration-now-rejected`)',
                'read/write = the four wrapped accessors, replace_values, constructor keywords and code that uses them '
                '(weaker reading); paths the mixin does not wrap are not claimed: `name in model`, eval() of an expression '
                'that spells an alias, reindex(**fill_values) keyed by an alias are not alias-aware on the current tree']
@@ -1689,6 +1693,8 @@ def gen_hier_case(rng):
                     i = rng.choice(usable)
                     events.append({'e': 'ops', 'inst': i,
                                    'ops': gen_ops(rng, live[i][1], variables, span, rng.randrange(1, 4), solve=False)})
+            if rng.random() < 0.3 and live:
+                events.append({'e': 'copy', 'inst': rng.randrange(len(live))})
             round_of_instances(range(ncls))
     combo = rng.choice(OPT_COMBOS)
     return {'part': 'hier', 'script': script, 'span': span, 'pool': pool, 'scenario': scenario, 'order': order,
@@ -1697,7 +1703,7 @@ def gen_hier_case(rng):
 
 def hier_events_for_model(events):
     return [{k: v for k, v in ev.items() if k in ('e', 'parent', 'aliases', 'pref', 'cls', 'k', 'v')}
-            for ev in events if ev['e'] != 'ops']
+            for ev in events if ev['e'] not in ('ops', 'copy')]
 
 
 def describe_class(sim, c):
@@ -1856,6 +1862,35 @@ def run_hier_case(ctx, rep, case, budget, tcases=None):
             r = drive_ops(rep, jc, a, t, m, ev['ops'], prefix='hier-', who=f'(existing) instance {ev["inst"]} of class {c}: ')
             if r is not None:
                 return r
+        elif e == 'copy':
+            # a copy of an existing instance, made after the class changed, is the instance over again
+            if ev['inst'] >= len(objs) or objs[ev['inst']][0] is None:
+                continue
+            a, t, m, pref, c = objs[ev['inst']]
+            try:
+                a2, cerr = a.copy(), None
+            except Exception as ex:  # noqa: BLE001
+                a2, cerr = None, exc_name(ex)
+            t2 = t.copy()
+            bad = None
+            cur_m, cur_pref = dict(sim.lookup(c, 'ALIASES')), list(sim.lookup(c, 'PREFERRED_NAMES'))
+            if a2 is None and (not is_acyclic(cur_m) or pref_ambiguous(cur_m, cur_pref)):
+                # copy() goes through the constructor, which validates the class's *current* declaration: where that
+                # is one the constructor rejects (no new instance can exist either) the property claims nothing
+                rep.dist['hier-copy:class-declaration-now-rejected'] += 1
+                continue
+            rep.dist['hier-copy:compared'] += 1
+            if a2 is None:
+                bad = f'copy() raised {cerr}'
+            elif full_state(a2, MIXIN_ATTRS, t2) != full_state(t2):
+                bad = 'state differs from the twin\'s copy: ' + diff_state(full_state(a2, MIXIN_ATTRS, t2), full_state(t2))
+            else:
+                pr = probe_names(a2, t2, m, universe)
+                bad = pr[1] if pr is not None else None
+            if bad is not None:
+                rep.violate('hier-copy-map', f'copy of instance {ev["inst"]} of {describe_class(sim, c)} (created when its '
+                            f'class\'s ALIASES were {m}), taken after later class-level events (event {n_ev}): {bad}', jc)
+                return 'copy'
     # at the end: every instance still lives by the map of its creation; export
     kw = case['export_options']
     regimes = set()
@@ -1931,6 +1966,7 @@ def check_hierarchies(ctx, rep, rng, count, budget=None):
         rep.dist['hier:' + regime.split(':')[0]] += 1
         rep.dist['hier-scenario:' + case['scenario']] += 1
         rep.dist['hier-order:' + case['order']] += 1
+        rep.dist[f'hier-scenario-order:{case["scenario"]}:{case["order"]}'] += 1
         rep.dist['hier-late-subclass:' + str(case['late_classes'])] += 1
         rep.dist['hier-instances:' + str(min(len(news), 8))] += 1
         for ch in case['changes'] or ['none']:
@@ -1976,9 +2012,14 @@ def run(ctx, rep):
     if not budget.exhausted:
         check_twins(ctx, rep, ctx.sub_rng('twin'), (700 if quick else 15000) * ctx.scale, budget)
     if not budget.exhausted:
-        check_export_opts(ctx, rep, ctx.sub_rng('export-opts'), (150 if quick else 2500) * ctx.scale, budget)
+        check_export_opts(ctx, rep, ctx.sub_rng('export-opts'), (150 if quick else 2000) * ctx.scale, budget)
+        rep.notes.append(f'(G) {sum(v for k, v in rep.dist.items() if k.startswith("opts-kind:"))} objects (models, '
+                         f'linkers, containers) x {len(OPT_COMBOS)} flag combinations x 2 spellings')
     if not budget.exhausted:
-        check_hierarchies(ctx, rep, ctx.sub_rng('hier'), (350 if quick else 7000) * ctx.scale, budget)
+        check_hierarchies(ctx, rep, ctx.sub_rng('hier'), (350 if quick else 6000) * ctx.scale, budget)
+        rep.notes.append(f'(H) {rep.dist["hier-event:class"]} classes, {rep.dist["hier-event:new"]} constructor calls, '
+                         f'{sum(v for k, v in rep.dist.items() if k.startswith("hier-change-after-instance:") and not k.endswith(":none"))} '
+                         'class-level changes after the first instance')
     rep.exhaustive = False
 
 
